@@ -371,6 +371,9 @@ func init() {
 			c.guard("RW.BRANCHCTX", r.ruleBranchCtx)
 			c.guard("OPT.ETA", r.ruleOptEta)
 			c.guard("RW.IMPORT", r.ruleImport)
+			// an ordinary closure nested in a generator keeps its statements as written: a hoisted `:=`
+			// initialiser puts a label in front of a block (`L: { i := 0; for … }`), `continue L` no longer builds
+			c.guard("RW.TMPL.HOIST", r.rulePass0)
 			c.guard("RW.ALLFILES", func() { r.ruleAllFiles(true) })
 			c.guard("OPT.ORDER", r.ruleOptOrder)
 			c.guard("RW.TMPL.CONSUMER", r.ruleTmplConsumer)
@@ -383,6 +386,8 @@ func init() {
 					return false // behaviour, C12 / C01
 				case "RW.ALLFILES":
 					return o.Construct != "file visited twice" // byte identity, C15
+				case "RW.TMPL.HOIST", "RW.TMPL.RETURN":
+					return strings.HasPrefix(o.Construct, "nested ordinary closure")
 				case "RW.KINDTAB":
 					return o.Construct == "returnNormalRequired"
 				case "RW.BRANCHCTX":
